@@ -96,7 +96,8 @@ def extra_checks(R, rng, tier):
             for ln in sorted(set(impl) | set(ref[name])):
                 # the property is about modules that need only DWARF or frame-pointer unwinding: probes into
                 # the battery's PE module are not compared across subsets
-                if ":pe:" in script.tags.get(ln, "") or script.tags.get(ln, "").startswith("pe:") or ":macho:" in script.tags.get(ln, ""):
+                tg = script.tags.get(ln, "")
+                if ":pe:" in tg or tg.startswith("pe:") or ":macho:" in tg or ":macho-" in tg or ":pe-" in tg:
                     continue
                 # allocation counts are C15's subject; results, registers, statistics and section reads are compared
                 a, b = vlib.norm(impl.get(ln), keep_alloc=False), vlib.norm(ref[name].get(ln), keep_alloc=False)
